@@ -782,7 +782,7 @@ def removeUnsupported (K : FilterConsts) (tbl : List OptionRow) (features : List
     | some r => if dropsOption K features r then dflt i else o i
     | none => o i
 
-/-- `RequestHandlerBase.calculate_options` (base.py:91-116) on already de-duplicated arguments -/
+/-- `RequestHandlerBase.calculate_options` (base.py:91-118) on already de-duplicated arguments -/
 def calculateOptions (K : FilterConsts) (tbl : List OptionRow) (mode : Bytes)
     (args : List (Bytes × Bytes)) (dflt : Nat → Val DT)
     (features : Option (List String)) (restrictions : Option (List (String × Allowed))) :
@@ -793,13 +793,13 @@ def calculateOptions (K : FilterConsts) (tbl : List OptionRow) (mode : Bytes)
   match convertOptions C tbl dflt args' with
   | .error e => .error e
   | .ok o =>
-    match checkOptionValues C K tbl o with
+    -- fix 3a51c23: the values are checked after the unsupported options have been reset
+    let o1 := match features with
+      | some f => removeUnsupported K tbl f dflt o
+      | none => o
+    match checkOptionValues C K tbl o1 with
     | .error e => .error e
-    | .ok o1 =>
-      let o2 := match features with
-        | some f => removeUnsupported K tbl f dflt o1
-        | none => o1
-      .ok (setFieldByName tbl o2 "mode" (.str mode))
+    | .ok o2 => .ok (setFieldByName tbl o2 "mode" (.str mode))
 
 /-- `OptionsContainer.remove_unused_parameters(mode)` (container.py:229-262).  `remove_field` acts on
 the top-level container only.  The DRM branches pass names (`playreadyPiff`, `marlinLicenseUrl` …,
